@@ -56,8 +56,13 @@ def h_build(shape):
         v1 = c04.var_values(inp, P, "v")
         v2 = c04.var_values(inp, P, "w")
         builds = []
-        for vals in (v1, v2, v1):
+        for vals in (v1, v2, v1, v1):
             try:
+                if builds:
+                    # the caller goes on using an earlier result: it must not leak into later builds
+                    ch0 = list(builds[-1].declared_channels)[0]
+                    if not builds[-1].is_measured() and not builds[-1].is_in_eom_mode(ch0) and not ch0.startswith("dmm"):
+                        builds[-1].delay(100, ch0)
                 b = tmpl.build(**vals)
                 direct = c04.build_program(inp, dict(P, vars=None), env=vals)
             except l2.REFUSALS:
@@ -66,7 +71,7 @@ def h_build(shape):
             obs.append(("build:equals_direct_construction", l2.snap_equal(l2.timeline(b), l2.timeline(direct))))
             obs.append(("build:same_static_parts", AND(*c04.static_equal(b, direct))))
             obs.append(("build:result_not_parametrized", not b.is_parametrized()))
-        obs.append(("build:reproducible", l2.snap_equal(l2.timeline(builds[0]), l2.timeline(builds[2]))))
+        obs.append(("build:independent_results", all(x is not y and x._schedule is not y._schedule for x, y in zip(builds, builds[1:]))))
         # the template is not altered by building (call logs, flags, channels)
         snap_after = l2.snapshot(tmpl)
         for key in ("schedule", "calls", "to_build_calls", "flags"):
@@ -74,6 +79,12 @@ def h_build(shape):
         return obs
 
     return h
+
+
+def l2_is_pulse(slot):
+    from pulser.pulse import Pulse
+
+    return isinstance(slot.type, Pulse)
 
 
 def h_mappable(shape):
@@ -92,9 +103,13 @@ def h_mappable(shape):
         ids = shape["ids"]
         mreg = MappableRegister(lay, *ids)
         seq = Sequence(mreg, MockDevice)
-        seq.declare_channel("l", "rydberg_local")
+        first = [q for q in ids if q in shape["chosen"]][0]
+        seq.declare_channel("l", "rydberg_local", initial_target=first)
+        # executed before the sequence becomes parametrized: moves the phase reference of `first`
+        seq.add(Pulse.ConstantPulse(16, 1.0, 0.0, 0.0, post_phase_shift=0.75), "l")
         amp = seq.declare_variable("amp", dtype=float)
         idx = seq.declare_variable("idx", dtype=int)
+        seq.add(Pulse.ConstantPulse(16, amp, 0.0, 0.25), "l")
         seq.target_index(idx, "l")
         seq.add(Pulse.ConstantPulse(16, amp, 0.0, 0.0), "l")
         chosen = shape["chosen"]  # qubit id -> trap id (a prefix of the declared ids)
@@ -109,7 +124,9 @@ def h_mappable(shape):
         for q in declared_order:
             obs.append(("mappable:qubit_on_requested_trap", bool(np.allclose(np.asarray(reg.qubits[q].as_array(), dtype=float), td[chosen[q]]))))
         sl = b._schedule["l"].slots
-        obs.append(("mappable:index_targets_declared_order", sl[0].targets == {declared_order[k]}))
+        pulses = [x for x in sl if l2_is_pulse(x)]
+        obs.append(("mappable:phase_reference_kept", abs(float(pulses[1].type.phase) - 1.0) < 1e-9 and abs(b.current_phase_ref(first, "ground-rydberg") - 0.75) < 1e-9))
+        obs.append(("mappable:index_targets_declared_order", sl[-1].targets == {declared_order[k]}))
         p = sl[-1].type
         obs.append(("mappable:value_used", facade._unwrap0(p.amplitude._value) == a))
         return obs
